@@ -199,6 +199,7 @@ def check(ctx):
                   "send_system_event does not build its command from the target system and the entity it spawned for this event's payload")
 
     # ---- C05.d aborted and discarded runs release too ----
+    _discard_path(ctx)
     H = ctx.anchor("C05.d", lambda: A.abort_helper(prog), "abort helper")
     if H is not None:
         ctx.touch(H)
@@ -210,6 +211,14 @@ def check(ctx):
                   "%s:setup-then-cleanup" % lib.fkey(H), "%s:%d" % (H.file, H.line),
                   "abort helper runs its setup exactly once, then its cleanup exactly once, on every path",
                   "abort helper does not run setup (claims the pending entry) and then cleanup (releases it) exactly once each: setup %s cleanup %s" % (sorted(cs), sorted(cc)))
+
+
+def _discard_path(ctx):
+    """C05.d: postponed runs that can no longer happen are aborted with setup + cleanup (shared with C02.a / C02.c)"""
+    import core, c02
+    n = core.adopt(ctx, c02, lambda o: (o["rule"] == "C02.c" and any(k in o["key"] for k in ("discard", "run-path-always-replays", "detached-queue", "replays-element", "drop-only-after-run")))
+                   or (o["rule"] == "C02.a" and any(k in o["key"] for k in ("single-disposition", "dispositions=", "abort-only"))), "C05.d")
+    ctx.floor("C05.d", n, 8, "shared abort / discard obligations (C02.a, C02.c)")
 
 
 def entity_from_spawn(body, op, spawn_block):
